@@ -8,6 +8,8 @@ ops (one output line each):
   sel  <max> <selector in prefix form>   -> `v=<verdict> wf=<0|1> enc=<node in prefix form>`
                                             (or `v=- wf=0 enc=-` if a fields clause repeats a key)
   node <max> <node in prefix form>       -> `v=<verdict>`
+  alt  <max> <k> <k selector tokens> <node in prefix form>
+                                         -> `v=<verdict> parses=<0|1>`  (does ParseSelector read the node as that selector)
   wired <selector in prefix form>        -> `resp=<served|status>` | `not-wf`  (default responder configuration)
 
 selector prefix form:  m | ms a b | a S | f n (s:key S)* | i idx S | r a b S
@@ -183,6 +185,14 @@ def stepLine (t : Toks) : String :=
   | "node" :: mx :: rest =>
     match mx.toInt?, parseNode (rest.length + 1) rest with
     | some mx, some (n, []) => s!"v={showVerdict (validate mx n)}"
+    | _, _ => "bad-op"
+  | "alt" :: mx :: k :: rest =>
+    match mx.toInt?, k.toNat? with
+    | some mx, some k =>
+      match parseSel (k + 1) (rest.take k), parseNode (rest.length + 1) (rest.drop k) with
+      | some (s, []), some (n, []) =>
+        s!"v={showVerdict (validate mx n)} parses={if parsesB s n && wfIn false s then 1 else 0}"
+      | _, _ => "bad-op"
     | _, _ => "bad-op"
   | "wired" :: rest =>
     match parseSel (rest.length + 1) rest with
